@@ -59,6 +59,8 @@ static void clear_dl_regex(zckDL *dl) {
 
 /* Write zeros to tgt->fd in location of tgt_idx */
 static bool zero_chunk(zckCtx *tgt, zckChunk *tgt_idx) {
+    VALIDATE_BOOL(tgt);
+
     char buf[BUF_SIZE] = {0};
     size_t to_read = tgt_idx->comp_length;
     if(!seek_data(tgt, tgt->data_offset + tgt_idx->start, SEEK_SET))
@@ -135,7 +137,7 @@ static bool write_and_verify_chunk(zckCtx *src, zckCtx *tgt,
         int rb = BUF_SIZE;
         if(rb > to_read)
             rb = to_read;
-        if(!read_data(src, buf, rb))
+        if(read_data(src, buf, rb) != rb)
             return false;
         if(!hash_update(tgt, &check_hash, buf, rb))
             return false;
@@ -144,6 +146,8 @@ static bool write_and_verify_chunk(zckCtx *src, zckCtx *tgt,
         to_read -= rb;
     }
     char *digest = hash_finalize(tgt, &check_hash);
+    if(digest == NULL)
+        return false;
     /* If chunk is invalid, overwrite with zeros and add to download range */
     if(memcmp(digest, src_idx->digest, src_idx->digest_size) != 0) {
         char *pdigest = zck_get_chunk_digest(src_idx);
@@ -250,8 +254,13 @@ bool ZCK_PUBLIC_API zck_copy_chunks(zckCtx *src, zckCtx *tgt) {
 
         HASH_FIND(hh, src_info->ht, tgt_idx->digest, tgt_idx->digest_size, f);
         if(f && f->length == tgt_idx->length &&
-           f->comp_length == tgt_idx->comp_length)
-            write_and_verify_chunk(src, tgt, f, tgt_idx);
+           f->comp_length == tgt_idx->comp_length) {
+            /* A source that can't be read just doesn't provide this chunk; a
+             * target that can't be written is an error */
+            if(!write_and_verify_chunk(src, tgt, f, tgt_idx) &&
+               tgt->error_state > 0)
+                return false;
+        }
         tgt_idx = tgt_idx->next;
     }
     return true;
